@@ -67,3 +67,11 @@ for _u in UNITS:
                                    "aas_core_codegen.csharp.common:NamespaceIdentifier.__new__"]
         _u.assume_preconditions_why = ("'Types/<Identifier>/<Identifier>.cs' matches the key pattern: needs language "
                                        "inclusion between two regular expressions, not decided by the solver")
+
+# beyond the driver: the smoke tool against the stages it stands for, on mutants (bounded differential)
+UNITS.append(Native(
+    "smoke tool against the stages it stands for, on mutants", ["C28"], "native.c28:differential", kind="bounded",
+    bound="three valid meta-models, every 3rd single-edit mutant of two of them (~2 700 meta-models) and 48 models with "
+          "one candidate invariant each: the smoke tool exits 0 iff the front end, the constraint inference and C# type "
+          "and verification generation (called directly, with the documented dummy snippets) all succeed; exit 1 comes "
+          "with a non-empty report", args={"stride": 3}, thorough_args={"stride": 1}, timeout_s=3000))
